@@ -118,9 +118,9 @@ class CAddi(RiscvcInstruction):
     def encode(self):
         tokens = self.get_tokens()
         tokens[0][0:2] = 0b01
-        tokens[0][2:7] = self.imm
+        tokens[0].imm = self.imm
         tokens[0][7:12] = self.rd.num
-        tokens[0][12:16] = 0b0000
+        tokens[0][13:16] = 0b000
         return tokens[0].encode()
 
 
